@@ -133,6 +133,11 @@ def geom_far(rng: random.Random, w: int) -> Dict[str, Any]:
         length = rng.choice([2, 4, 8, 16, 2000])
         if start + length <= top:
             segs.append((start, length))
+            if rng.random() < 0.5:
+                # a sibling in the same 2^14-word page with a gap in between (the gap is NOT memory)
+                sib = start + length + rng.choice([2, 4, 10, 100])
+                if sib + 4 <= top and sib // PAGE == start // PAGE:
+                    segs.append((sib, rng.choice([2, 4, 8])))
     segs = _dedupe(segs)
     return {'segments': segs, 'cuts': [5, segs[0][1] + 1, 1 << 23, (1 << 23) + 2]}
 
